@@ -556,7 +556,7 @@ def rule_li(ctx):
             and any(A.is_self_attr(k.value, 'map_function') for k in e.keywords)))
         okg = gsrc is not None and flow.all_defs_satisfy(gsrc, pi, lambda e: A.is_self_attr(e, INPUT_ATTR) or (
             isinstance(e, ast.Call) and isinstance(e.func, ast.Attribute)
-            and e.func.attr == '__iter__' and A.is_self_attr(e.func.value, INPUT_ATTR)))
+            and e.func.attr in ('__iter__', 'items') and A.is_self_attr(e.func.value, INPUT_ATTR)))
         ret = isinstance(A.parent(c), ast.Return)
         for pname, attr in (('max_workers', 'num_workers'), ('backend', 'backend'), ('buffer_size', 'buffer_size')):
             e = b.args.get(pname)
